@@ -185,13 +185,14 @@ func typeFromAST(schema Schema, inputTypeAST ast.Type) (Type, error) {
 	switch inputTypeAST := inputTypeAST.(type) {
 	case *ast.List:
 		innerType, err := typeFromAST(schema, inputTypeAST.Type)
-		if err != nil {
+		if err != nil || innerType == nil {
+			// a list of an unknown type is an unknown type
 			return nil, err
 		}
 		return NewList(innerType), nil
 	case *ast.NonNull:
 		innerType, err := typeFromAST(schema, inputTypeAST.Type)
-		if err != nil {
+		if err != nil || innerType == nil {
 			return nil, err
 		}
 		return NewNonNull(innerType), nil
